@@ -157,11 +157,10 @@ theorem clone_types_order_fixpoint_witness :
       = some (["String", "Query", "Pet", "Dog"], ["String", "Query", "Pet", "Dog"]) := by decide
 
 /-- the variant in the working tree -/
-theorem current_clone_refines_directives (hd : PyGql.Generated.HeapCfg.currentCfg.deepClone = true)
-    (hk : PyGql.Generated.HeapCfg.currentCfg.keepAllTypes = true) (fuel : Nat)
+theorem current_clone_refines_directives (fuel : Nat)
     (s : Schema) (h h' : Heap) (s' : Schema) (hc : closedB h s = true) (hw : wfB h s = true) (hnd : (s.dirs.map (·.1)).Nodup)
     (e : clone PyGql.Generated.HeapCfg.currentCfg fuel s h = some (h', s')) :
     s'.dirs.map (fun c => (c.1, dirV h' c.2)) = s.dirs.map (fun e => (e.1, dirV h e.2)) :=
-  clone_refines_directives _ hd hk fuel s h h' s' hc hw hnd e
+  clone_refines_directives _ cur_deepClone cur_keepAllTypes fuel s h h' s' hc hw hnd e
 
 end PyGql.Props.C14
